@@ -127,6 +127,37 @@ check('C15', 'sql',
       'Trusted: TLC, sqlite3 as the SQL engine (columns without affinity), value pool as in the evidence assumptions.',
       'DESIGN.md section 4, C15')
 
+ENGINES['http'] = ('specs/http', ['C16', 'C17'],
+                   'ReqId.tla (request-id counter at shared-access atomicity), ReqIdJudge.tla (trace validation), '
+                   'HttpConn.tla (connection/caller derivation histories, Expected request as a function of the '
+                   'construction chain); drivers harness/drivers/c16.py + harness/sched.py, c17.py')
+check('C16', 'http',
+      'TLA+ spec of the counter/lock protocol model checked by TLC over all interleavings (safety + liveness); the real '
+      'code is run under a deterministic scheduler that enumerates all its schedules at shared-access granularity and '
+      'every recorded execution is validated by TLC against the spec',
+      'TLC explores every interleaving of 2 threads x 2 requests and 3 threads x 1 (x2 thorough) incl. caller supplied '
+      'ids: Unique, GapFree, MutualExclusion, termination.  harness/sched.py stops real threads before every load/store '
+      'of a shared mutable attribute of the underlying connection (found in the bytecode of the working tree) and at lock '
+      'acquisition and enumerates all schedules by stateless DFS (a removed or narrowed lock just yields more '
+      'schedules); each execution trace (loads, stores, lock events, ids handed to the opener) is judged by TLC: ids '
+      'distinct, gap free, caller ids untouched (verdict) and the event sequence is a behaviour of ReqId (drift).',
+      'Trusted: TLC, CPython 3.12 sys.monitoring, the cooperative lock shim. Instructions other than shared accesses '
+      'are thread local.  Quick tier caps the schedules per configuration (evidence says when the cap was hit).',
+      'DESIGN.md section 4, C16')
+check('C17', 'http',
+      'TLA+ spec of connection / method-caller derivations with the expected request as a function of the construction '
+      'chain (TLC: Stable, AtMostOneAuth, CacheOwn); TLC-generated histories replayed on real objects, a probe request '
+      'through every live connection after every action',
+      'All histories of 3 actions (NewConn, Wrap with one adapter or a list, AuthWrap basic/token/client, NewCaller, '
+      'CloneCaller none/single/list, GetConn per component, Request with 5 methods x 11 body kinds) exhaustively and '
+      'TLC simulations of 7 actions; after every action every live connection is probed and the captured urllib Request '
+      'compared with the spec: address, path segments (inner prefixes outermost), url-encoded params, exactly one '
+      'decodable Authorization header, adapter and caller headers, response processors in reverse order, body '
+      'encoding, caller objects unchanged.',
+      'Trusted: TLC; opener replaced by a recorder. One auth layer per chain; paths start with "/"; add_adapter and '
+      'tuples of adapters not exercised.',
+      'DESIGN.md section 4, C17')
+
 ALL = ['C%02d' % i for i in range(1, 21)]
 
 
